@@ -440,6 +440,9 @@ pub fn gen_layout(r: &mut Rng, max_entries: u64, max_content: u64, with_enc: boo
         l.prefix_seed = r.next_u64();
     }
     l.force_z64_end = sw_z64 && r.chance(1, 3);
+    if l.force_z64_end && r.chance(1, 2) {
+        l.z64_end_real = r.range(1, 7) as u8;
+    }
     if !l.force_z64_end && r.chance(1, 5) {
         l.trailing = r.below(100) as u32;
     }
